@@ -1,7 +1,7 @@
 (* C15 non-vacuity: concrete inputs meeting the hypotheses of the theorems in
    Props.v, and concrete instances of the abstract codings / primitives that
    satisfy the section hypotheses (so the hypotheses are consistent). *)
-From CJ Require Import Common.Base Common.BaseProofs C15.Model C15.Proofs C15.ModelName C15.ProofsName C15.ModelObf C15.ProofsObf C15.ModelAny C15.ProofsAny C15.ModelDns C15.ProofsDns C15.ModelB32 C15.ModelExch C15.ProofsExch C15.ModelPb C15.ProofsPb C15.ModelDot C15.ProofsDot C15.ModelSeq C15.ProofsSeq C15.Run.
+From CJ Require Import Common.Base Common.BaseProofs C15.Model C15.Proofs C15.ModelName C15.ProofsName C15.ModelObf C15.ProofsObf C15.ModelAny C15.ProofsAny C15.ModelDns C15.ProofsDns C15.ModelB32 C15.ModelExch C15.ProofsExch C15.ModelPb C15.ProofsPb C15.ModelDot C15.ProofsDot C15.ModelSeq C15.ProofsSeq C15.ModelStream C15.ProofsStream C15.Run.
 From Coq Require Import Lia ZifyN ZifyNat ZifyBool.
 Ltac Zify.zify_post_hook ::= Z.div_mod_to_equations.
 
@@ -309,4 +309,22 @@ Proof.
   split.
   - apply (seq_gcm_fresh t_sbm t_r2p t_x t_sha t_ctr t_seal t_open t_mask toy_laws); [reflexivity|exact ex_draws_differ].
   - vm_compute. reflexivity.
+Qed.
+
+(* ---- the stream-cipher shape (ModelStream): a toy keystream and a toy 16-octet authenticator meet the one hypothesis ---- *)
+Definition s_ks (k iv : bytes) (i : nat) : byte := (nth 0 k 0 + nth 0 iv 0 + N.of_nat i) mod 256.
+Definition s_mac (k n c : bytes) : bytes := take 16 (map (fun b => (b + nth 0 k 0) mod 256) c ++ repeat 7 16).
+Lemma s_mac_length k n c : length (s_mac k n c) = 16%nat.
+Proof. unfold s_mac, take. rewrite firstn_length, app_length, repeat_length. change (N.to_nat 16) with 16%nat. lia. Qed.
+Example ex_stream_ctr : ctr_of s_ks [3] [4] [1; 2; 3] = [6; 10; 10] /\ ctr_of s_ks [3] [4] [6; 10; 10] = [1; 2; 3].
+Proof. vm_compute. split; reflexivity. Qed.
+Example ex_stream_gcm :
+  let c := seal_of s_ks s_mac [3] [4] [1; 2; 3] in
+  blen c = 19 /\ open_of s_ks s_mac [3] [4] c = Some [1; 2; 3] /\
+  open_of s_ks s_mac [3] [4] (take 18 c ++ [N.lxor 1 (nth 18 c 0)]) = None.
+Proof. vm_compute. repeat split; reflexivity. Qed.
+Example ex_stream_laws : crypto_laws t_sbm t_r2p t_x (ctr_of s_ks) (seal_of s_ks s_mac) (open_of s_ks s_mac) t_mask.
+Proof.
+  destruct toy_laws as [H1 H2 H3 _ _ _].
+  exact (crypto_laws_of_streams s_ks s_ks s_mac s_mac_length t_sbm t_r2p t_x t_mask H1 H2 H3).
 Qed.
